@@ -715,6 +715,56 @@ impl<'a> Gen<'a> {
     }
 }
 
+impl IovecFamily {
+    /// n placeholders in flight (each in its own slice, or merged into one arena slice), filled in
+    /// EVERY order, with a read-out after each fill: all n! orders for n = 3, 4 (5 in thorough).
+    fn fill_order_cases(&self, thorough: bool) -> Vec<Vec<String>> {
+        fn perms(n: usize) -> Vec<Vec<usize>> {
+            if n == 0 {
+                return vec![vec![]];
+            }
+            let mut out = Vec::new();
+            for p in perms(n - 1) {
+                for i in 0..=p.len() {
+                    let mut q = p.clone();
+                    q.insert(i, n - 1);
+                    out.push(q);
+                }
+            }
+            out
+        }
+        let mut cases = Vec::new();
+        for n in 3..=(if thorough { 5 } else { 4 }) {
+            for separate in [true, false] {
+                for order in perms(n) {
+                    let mut ops = vec!["new".to_string()];
+                    for k in 0..n {
+                        if separate {
+                            // a large borrowed slice keeps every placeholder in its own slice
+                            let big: Vec<u8> = (0..70).map(|j| (k * 16 + j) as u8).collect();
+                            ops.push(format!("push_borrowed v0 {}", to_hex(&big)));
+                        } else {
+                            ops.push(format!("push_copy v0 {:02x}", 0x10 + k));
+                        }
+                        ops.push(format!("register v0 {}", to_hex(&vec![0u8; 1 + k % 2])));
+                    }
+                    ops.push("push_copy v0 ee".to_string());
+                    for (step, b) in order.iter().enumerate() {
+                        let fill: Vec<u8> = (0..(1 + b % 2)).map(|j| (0xA0 + b * 2 + j) as u8).collect();
+                        ops.push(format!("backfill v0 b{} {}", b, to_hex(&fill)));
+                        if step % 2 == 1 {
+                            ops.push("advance v0 3".to_string());
+                        }
+                    }
+                    ops.push("read v0 1000".to_string());
+                    cases.push(ops);
+                }
+            }
+        }
+        cases
+    }
+}
+
 impl Family for IovecFamily {
     fn name(&self) -> &'static str {
         "iovec"
@@ -728,9 +778,10 @@ impl Family for IovecFamily {
     /// `bad_token_panics`): sources shorter / longer than the placeholder, a stale token from
     /// before a `clear` whose key coincides with a newer placeholder of different geometry, and the
     /// same shapes used correctly.  The random generator reaches these only rarely.
-    fn enumerated(&self, _thorough: bool) -> Vec<Vec<String>> {
+    fn enumerated(&self, thorough: bool) -> Vec<Vec<String>> {
         let c = |ops: &[&str]| ops.iter().map(|s| s.to_string()).collect::<Vec<String>>();
-        vec![
+        let mut cases = self.fill_order_cases(thorough);
+        cases.extend(vec![
             c(&["new", "register v0 0000", "backfill v0 b0 aa"]),
             c(&["new", "register v0 0000", "backfill v0 b0 aabbcc"]),
             c(&["new", "register v0 00", "backfill v0 b0 -"]),
@@ -745,7 +796,8 @@ impl Family for IovecFamily {
             c(&["new", "register v0 0000", "push_borrowed v0 09", "register v0 0000", "register v0 00", "register v0 000000",
                 "backfill v0 b0 0101", "backfill v0 b1 0202", "backfill v0 b3 040404", "consume v0 9", "backfill v0 b2 03",
                 "read v0 100"]),
-        ]
+        ]);
+        cases
     }
 
     fn gen_case(&self, rng: &mut Rng, _idx: u64, thorough: bool) -> Vec<String> {
